@@ -1,10 +1,10 @@
 #!/usr/bin/env bash
 # usage: tools/check_all_seeds.sh [tier]   applies every stored seeded change in turn and runs the check of
 # the property it was written against; prints one line per seed (CAUGHT / MISSED / n-a).
-TIER="${1:-quick}"
+TIER="${1:-quick}"; FROM="${2:-}"   # optional: skip seeds whose name sorts before $FROM
 HERE="$(cd "$(dirname "$0")/.." && pwd)"; cd "$HERE"
 for d in seeded/*/; do
-  name=$(basename "$d"); P=$(python3 -c "import json,sys;print(json.load(open('$d/meta.json'))['property'])")
+  name=$(basename "$d"); [ -n "$FROM" ] && [[ "$name" < "$FROM" ]] && continue; P=$(python3 -c "import json,sys;print(json.load(open('$d/meta.json'))['property'])")
   patch="$d/patch.diff"; [ -f "$d/patch_ported.diff" ] && patch="$d/patch_ported.diff"
   if ! git -C /repo apply --check "$HERE/$patch" 2>/dev/null; then echo "n-a     $name (patch does not apply to the current tree)"; continue; fi
   out=$(tools/with_seed.sh "$patch" "$P" "$TIER" 2>&1); code=$?
